@@ -108,3 +108,156 @@ RULES = {
     'P3_zip3_index_N': [zip3_to_index],
     'P3_zip2_filter_index_N': [zip2_filter_to_index],
 }
+
+
+# ---------------------------------------------------------------------------------------------------------
+# Tuple impls (compiler expansion of src/stream/chain/tuple.rs, src/future/race_ok/tuple/mod.rs).
+# Field letter X <-> tuple position pos(X) = index in 'ABCDEFGHIJKL' (the constructor's destructuring
+# `let (A, B, ..): (A, B, ..) = self;` is verified to be in that order by T_ctor_destructure and every field X is
+# verified to be initialised from variable X).  Index constants are NOT assumed: they are computed from the
+# declaration order of the real `enum Indexes` (Rust: the i-th variant of a fieldless enum without explicit
+# discriminants has discriminant i, `as usize` yields it), so a permuted enum yields permuted constants.
+# ---------------------------------------------------------------------------------------------------------
+TLETTERS = 'ABCDEFGHIJKL'
+
+
+def _tpos(letter):
+    return TLETTERS.index(letter)
+
+
+def _enum_order(text):
+    """variants of `#[repr(usize)] enum Indexes { A, B, }` in declaration order (None if not exactly letters)."""
+    m = _re.search(r'#\[repr\(usize\)\]\s*enum Indexes\s*\{([^{}]*)\}', text)
+    if not m:
+        return None, None
+    vs = [x.strip() for x in m.group(1).split(',') if x.strip()]
+    if not vs or any(not _re.fullmatch(r'[A-L]', v) for v in vs) or len(set(vs)) != len(vs):
+        return None, None
+    return vs, m
+
+
+def chain_mod_consts(body):
+    """`MOD::LEN` / `MOD::X` of the chain tuple impl -> the values the real `mod MOD { enum Indexes {..}
+    const X: usize = Indexes::X as usize; const LEN: usize = [Indexes::A, ..].len(); }` gives them (read from
+    the expansion and checked: every const must have exactly this form, else lost anchor)."""
+    m = _re.search(r'\b(chain_\d+)::LEN\b', body)
+    if not m:
+        return body, 0
+    mod = m.group(1)
+    from . import gen as _gen
+    src = _gen._read_repo('expanded')
+    a, ob, e = _lex.find_item(src, r'\bmod\s+%s\b' % mod)
+    item = _lex.strip_comments(src[a:e])
+    bad = _lex.ExtractError('T_chain_mod_consts: `mod %s` does not have the expected form (lost anchor)' % mod)
+    vs, em = _enum_order(item)
+    if vs is None:
+        raise bad
+    consts = dict(_re.findall(r'pub\(super\)\s+const\s+([A-L]):\s*usize\s*=\s*Indexes::([A-L])\s+as\s+usize;', item))
+    if sorted(consts) != sorted(vs) or any(k != v for k, v in consts.items()) or len(_re.findall(r'\bconst\b', item)) != len(vs) + 1:
+        raise bad
+    lm = _re.search(r'pub\(super\)\s+const\s+LEN:\s*usize\s*=\s*\[([^\]]*)\]\.len\(\);', item)
+    if not lm:
+        raise bad
+    elems = [x.strip() for x in lm.group(1).split(',') if x.strip()]
+    if any(not _re.fullmatch(r'Indexes::[A-L]', x) for x in elems):
+        raise bad
+    k = 0
+    body, c = _re.subn(r'\b%s::LEN\b' % mod, '%dusize' % len(elems), body)
+    k += c
+    for x in vs:
+        body, c = _re.subn(r'\b%s::%s\b' % (mod, x), '%dusize' % vs.index(x), body)
+        k += c
+    if _re.search(r'\b%s::' % mod, body):
+        raise bad
+    return body, k
+
+
+def chain_child_poll(body):
+    """`let fut = unsafe { Pin::new_unchecked(&mut self.X) }; match fut.poll_next(cx)` -> `match self.streams.poll_next_cx(pos(X), cx)`."""
+    n = 0
+
+    def rep(m):
+        nonlocal n
+        n += 1
+        return 'match self.streams.poll_next_cx(%d, cx)' % _tpos(m.group(1))
+    body = _re.sub(r'let\s+fut\s*=\s*unsafe\s*\{\s*Pin::new_unchecked\(&mut self\.([A-L])\)\s*\};\s*match\s+fut\.poll_next\(cx\)', rep, body)
+    return body, n
+
+
+def ctor_letter_fields(body, target):
+    """In the struct literal of the constructor the letter fields (`A, B` shorthand, or `A: A.into_future(), ..`) must be exactly
+    the letters A.. (each field X from variable X); they become `TARGET`."""
+    m = _re.search(r'((?:\s*[A-L](?::\s*[A-L]\.into_future\(\))?\s*,?)+)\s*\}\s*\}?\s*$', body)
+    if not m:
+        return body, 0
+    seg = m.group(1)
+    items = [x.strip() for x in seg.split(',') if x.strip()]
+    letters = []
+    for it in items:
+        g = _re.fullmatch(r'([A-L])(?::\s*([A-L])\.into_future\(\))?', it)
+        if not g or (g.group(2) and g.group(2) != g.group(1)):
+            return body, 0
+        letters.append(g.group(1))
+    if sorted(letters) != list(TLETTERS[:len(letters)]):
+        return body, 0
+    s = m.start(1)
+    return body[:s] + ' ' + target + ' ' + body[s + len(seg):], 1
+
+
+def indexes_enum_local(body):
+    """race_ok tuple poll: the function-local `#[repr(usize)] enum Indexes { A, B, }` is removed and every
+    `Indexes::X as usize` becomes the discriminant the declaration gives it (declaration order)."""
+    vs, m = _enum_order(body)
+    if vs is None:
+        return body, 0
+    body = body[:m.start()] + body[m.end():]
+    k = 1
+    for x in vs:
+        body, c = _re.subn(r'\bIndexes::%s\s+as\s+usize\b' % x, '%dusize' % vs.index(x), body)
+        k += c
+    if _re.search(r'\bIndexes::', body):
+        return body, 0
+    return body, k
+
+
+def rok_child_poll(body):
+    """`unsafe { Pin::new_unchecked(&mut self.X) }.poll(cx)` -> `self.futures.poll_cx(pos(X), cx)`."""
+    n = 0
+
+    def rep(m):
+        nonlocal n
+        n += 1
+        return 'self.futures.poll_cx(%d, cx)' % _tpos(m.group(1))
+    body = _re.sub(r'unsafe\s*\{\s*Pin::new_unchecked\(&mut self\.([A-L])\)\s*\}\s*\.poll\(cx\)', rep, body)
+    return body, n
+
+
+def zip2_filter_for_each(body):
+    """race_ok tuple drop: `self.errors_states.iter_mut().zip(self.errors.iter_mut()).filter(|(st, _err)| P(st)).for_each(|(st, err)| { B });`
+       -> `for i in 0..LEN_ { if P(self.errors_states[i]) { B' } }` with st := self.errors_states[i] (LEN_ substituted by the unit)."""
+    m = _re.search(r'self\s*\.errors_states\s*\.iter_mut\(\)\s*\.zip\(self\.errors\.iter_mut\(\)\)\s*\.filter\(\|\(st,\s*_err\)\|\s*([^{}]*?)\)\s*\.for_each\(\|\(st,\s*err\)\|\s*\{', body)
+    if not m:
+        return body, 0
+    ob = m.end() - 1
+    cb = _lex.match_close(_lex.mask(body), ob)
+    t = _re.match(r'\s*\)\s*;', body[cb + 1:])
+    if not t:
+        return body, 0
+    inner = body[ob + 1:cb]
+    if _re.search(r'\breturn\b', _lex.mask(inner)):
+        return body, 0
+    pred = _re.sub(r'\bst\.', 'self.errors_states[i].', m.group(1).strip())
+    inner = _re.sub(r'\bst\.', 'self.errors_states[i].', inner)
+    return body[:m.start()] + 'for i in 0..LEN_ { if %s {%s} }' % (pred, inner) + body[cb + 1 + t.end():], 1
+
+
+RULES.update({
+    'T_chain_mod_consts': [chain_mod_consts],
+    'T_chain_child_poll': [chain_child_poll],
+    'T_chain_ctor_fields': [lambda b: ctor_letter_fields(b, 'streams: streams,')],
+    'T_rok_ctor_fields': [lambda b: ctor_letter_fields(b, 'futures: futures.into_futures(),')],
+    'T_indexes_enum_local': [indexes_enum_local],
+    'T_rok_child_poll': [rok_child_poll],
+    'T_rok_drop_for_each': [zip2_filter_for_each],
+    'T_panic_assert_expr': [(r'if !(!?[\w.]+)\s*\{\s*\{\s*::core::panicking::panic_fmt\(format_args!\("[^"]*"\)\);\s*\}\s*\};?', r'assert!(\1);')],
+})
